@@ -11,7 +11,9 @@ Trace_UdpExchange / Trace_StreamFraming judge.
 Rebound in this process only: dns.query.time, dns.asyncquery.time (virtual clock),
 dns.query._wait_for (scripted waiter)."""
 import asyncio
+import errno
 import socket
+import ssl
 import struct
 
 import dns.asyncquery
@@ -22,6 +24,7 @@ import dns.name
 import dns.opcode
 import dns.query
 import dns.rdatatype
+import dns.update
 
 BASE = 1000.0
 
@@ -77,7 +80,7 @@ QID = 0x1234
 RD = 0x0100
 QR = 0x8000
 TC = 0x0200
-OPCODES = {"QUERY": 0, "STATUS": 2, "NOTIFY": 4}
+OPCODES = {"QUERY": 0, "IQUERY": 1, "STATUS": 2, "NOTIFY": 4, "UPDATE": 5}
 ERR_RCODES = [1, 2, 4, 5]  # FORMERR SERVFAIL NOTIMP REFUSED
 OTHER_RCODES = [0, 3]  # NOERROR NXDOMAIN
 
@@ -90,6 +93,9 @@ def name_wire(text):
 
 
 def make_query(qop):
+    """The message sent: a QUERY / NOTIFY / STATUS for QNAME IN A, or a dynamic UPDATE of zone QNAME."""
+    if qop == "UPDATE":
+        return dns.update.UpdateMessage(QNAME, id=QID)
     q = dns.message.make_query(QNAME, "A", id=QID)
     if qop != "QUERY":
         q.set_opcode(dns.opcode.Opcode(OPCODES[qop]))
@@ -102,7 +108,13 @@ def reply_wire(d, mark, qop, variant, pad=0):
     datagram it was parsed from.  variant selects among equivalent concretisations."""
     wf = d["wf"]
     ident = QID if d["idm"] else QID ^ 0x0101
-    opcode = OPCODES[qop] if d["opm"] else (OPCODES["STATUS"] if qop != "STATUS" else 0)
+    # the question of an UPDATE is its zone section: <zone> IN SOA
+    qt = 6 if qop == "UPDATE" else 1
+    if d["opm"]:
+        opcode = OPCODES[qop]
+    else:  # any of the other opcodes (UPDATE-form replies only come from an UPDATE that matches)
+        others = [o for o in (0, 1, 2, 4) if o != OPCODES[qop]]
+        opcode = others[variant % len(others)]
     flags = RD | (opcode << 11)
     if d["qr"]:
         flags |= QR
@@ -116,9 +128,9 @@ def reply_wire(d, mark, qop, variant, pad=0):
         # a label running past the end of the message / a pointer to itself
         question = None
     elif qm == "same":
-        question = name_wire(QNAME) + struct.pack("!HH", 1, 1)
+        question = name_wire(QNAME) + struct.pack("!HH", qt, 1)
     elif qm == "caseVariant":
-        question = name_wire(QNAME.swapcase()) + struct.pack("!HH", 1, 1)
+        question = name_wire(QNAME.swapcase()) + struct.pack("!HH", qt, 1)
     elif qm == "different":
         v = variant % 3
         if v == 0:
@@ -162,6 +174,9 @@ def reply_wire(d, mark, qop, variant, pad=0):
         txt = bytes([pad]) + b"p" * pad
         extra = name_wire("pad.") + struct.pack("!HHIH", 16, 1, 0, len(txt)) + txt
         ar = 1
+    if opcode == OPCODES["UPDATE"] and qd == 0 and wf in ("yes", "trailing"):
+        # an UPDATE response without a zone section cannot carry records (reply_mark() = 0)
+        an, body = 0, b""
     if wf == "badQuestion":
         header = struct.pack("!HHHHHH", ident, flags, 1, 0, 0, 0)
         return header + (b"\x3fabc" if variant % 2 == 0 else b"\xc0\x0c\x00\x01\x00\x01")
@@ -172,6 +187,13 @@ def reply_wire(d, mark, qop, variant, pad=0):
     if wf == "trailing":
         return wire + (b"\x00" if variant % 2 == 0 else b"\x00\x01xx")
     return wire
+
+
+def reply_mark(d, mark, qop):
+    """The marker a message parsed from reply_wire(d, mark, qop, ...) carries in its first record."""
+    if qop == "UPDATE" and d["opm"] and d["qm"] in ("emptyErr", "emptyOther"):
+        return 0
+    return mark
 
 
 ADDRS = {
@@ -390,11 +412,60 @@ class SyncTcpSock:
     type = socket.SOCK_STREAM
     family = socket.AF_INET
 
-    def __init__(self, run, stream):
+    def __init__(self, run, stream, established=True, handshake_takes_the_time=False):
         self.run = run
         self.stream = stream
         self.pos = 0
         self.written = b""
+        self.established = established  # False: the library makes the connection itself
+        self.connecting = False
+        self.hs = handshake_takes_the_time
+
+    # --- what dns.query.make_socket / make_ssl_socket / _connect / _tls_handshake call
+    def setblocking(self, flag):
+        pass
+
+    def bind(self, source):
+        pass
+
+    def close(self):
+        pass
+
+    def __enter__(self):
+        return self
+
+    def __exit__(self, *a):
+        pass
+
+    def getsockopt(self, level, opt):
+        return 0
+
+    def _connected(self):
+        self.run.pop()
+        self.established = True
+        self.connecting = False
+        self.run.log.append(("connected",))
+
+    def connect_ex(self, address):
+        if self.hs:  # TCP connects at once, the TLS handshake takes the scripted time
+            return 0
+        if self.run.peek()["op"] == "connected":
+            self._connected()
+            return 0
+        self.connecting = True
+        return errno.EINPROGRESS
+
+    def do_handshake(self):
+        if self.established:
+            return
+        ev = self.run.peek()
+        if ev["op"] == "connected":
+            self._connected()
+            return
+        if ev["op"] in ("block", "silence"):
+            self.run.log.append(("wouldblock",))
+            raise ssl.SSLWantReadError
+        raise ScriptExhausted("handshake while the script expects %s" % ev["op"])
 
     def send(self, data):
         ev = self.run.peek()
@@ -434,7 +505,25 @@ class SyncTcpSock:
 
     def v_wait(self, readable, writable, expiration):
         self.run.log.append(("wait", "r" if readable else "w"))
+        if self.connecting and not self.established:
+            # dns.query._connect waits ONCE for the connection: all the scripted set-up time
+            while True:
+                ev = self.run.peek()
+                if ev["op"] == "connected":
+                    self._connected()
+                    return
+                if ev["op"] not in ("block", "silence"):
+                    raise ScriptExhausted("connecting while the script expects %s" % ev["op"])
+                self.run.wait_sync(expiration)
         self.run.wait_sync(expiration)
+
+
+class FakeSSLContext:
+    """Stands in for ssl.SSLContext in dns.query.tls(ssl_context=...): the 'TLS socket' is the
+    scripted socket itself."""
+
+    def wrap_socket(self, sock, do_handshake_on_connect=False, server_hostname=None):
+        return sock
 
 
 class AsyncTcpSock:
@@ -497,6 +586,35 @@ class AsyncTcpSock:
         pass
 
 
+class FakeBackend:
+    """dns.asyncbackend.Backend as far as dns.asyncquery.tcp()/tls() use it when they make their
+    own connection: make_socket() takes the scripted set-up time (TCP connect + TLS handshake)
+    within the timeout it is given, like the asyncio backend's open_connection under wait_for."""
+
+    def __init__(self, run, stream):
+        self.run = run
+        self.stream = stream
+
+    def name(self):
+        return "scripted"
+
+    def datagram_connection_required(self):
+        return False
+
+    async def make_socket(self, af, socktype, proto=0, source=None, destination=None, timeout=None,
+                          ssl_context=None, server_hostname=None):
+        start = CLOCK.now
+        while True:
+            ev = self.run.peek()
+            if ev["op"] == "connected":
+                self.run.pop()
+                self.run.log.append(("connected",))
+                return AsyncTcpSock(self.run, self.stream)
+            if ev["op"] not in ("block", "silence"):
+                raise ScriptExhausted("connecting while the script expects %s" % ev["op"])
+            self.run.wait_async(start, timeout)
+
+
 # ------------------------------------------------------------------ UDP exchanges
 FALLBACK_MARK = 99
 
@@ -510,6 +628,7 @@ def _fallback_stream(qop):
 def run_udp_once(script, flavor, qop, variant):
     """Run one UDP exchange script on one flavor; returns (events, summary)."""
     cfg = script["cfg"]
+    qop = cfg.get("qop", qop)
     events = []
     i = 0
     dgrams = {}
@@ -518,6 +637,7 @@ def run_udp_once(script, flavor, qop, variant):
         if e["op"] == "dgram":
             i += 1
             e["i"] = i
+            e["mk"] = reply_mark(e["d"], i, qop)
             dgrams[i] = (reply_wire(e["d"], i, qop, variant + i), source_tuple(cfg, e["d"]["src"], variant + i))
         events.append(e)
     by_index = {e["i"]: e for e in events if e["op"] == "dgram"}
@@ -599,7 +719,7 @@ def run_udp_once(script, flavor, qop, variant):
             out.append({"op": "silence"})
         elif x[0] == "recv":
             consumed += 1
-            ev = {"op": "dgram", "i": x[1], "d": by_index[x[1]]["d"]}
+            ev = {"op": "dgram", "i": x[1], "d": by_index[x[1]]["d"], "mk": by_index[x[1]]["mk"]}
             if k != last_recv or later_socket_use:
                 ev.update(obs="skip", exc="", fam="-")
             elif api == "fallback" and used_tcp:
@@ -668,11 +788,13 @@ def _capacity_events(events):
 def run_stream_once(script, flavor):
     cfg = script["cfg"]
     api = cfg["api"]
-    wire = reply_wire(cfg["msg"], STREAM_MARK, "QUERY", cfg["v"], cfg["pad"])
+    qop = cfg.get("qop", "QUERY")
+    own = cfg.get("conn", "given") == "own"
+    wire = reply_wire(cfg["msg"], STREAM_MARK, qop, cfg["v"], cfg["pad"])
     if len(wire) != cfg["L"]:
         raise RuntimeError("concretised message has %d octets, the case says %d" % (len(wire), cfg["L"]))
     stream = struct.pack("!H", cfg["L"]) + wire + EXTRA[: cfg["extra"]]
-    q = make_query("QUERY")
+    q = make_query(qop)
     if cfg["qlen"] == len(q.to_wire()) and (api != "send" or cfg["v"] % 2 == 0):
         what = q
         qwire = q.to_wire()
@@ -688,8 +810,19 @@ def run_stream_once(script, flavor):
     exc = None
     try:
         if flavor == "sync":
-            sock = SyncTcpSock(run, stream)
-            if api == "send":
+            sock = SyncTcpSock(run, stream, established=not own, handshake_takes_the_time=(api == "tls" and cfg["v"] % 2 == 0))
+            if own:
+                saved = dns.query.socket_factory
+                dns.query.socket_factory = lambda af, kind, proto: sock
+                try:
+                    if api == "tls":
+                        result = dns.query.tls(q, "10.0.0.1", timeout, 853, ignore_trailing=cfg["it"],
+                                               ssl_context=FakeSSLContext())
+                    else:
+                        result = dns.query.tcp(q, "10.0.0.1", timeout, PORT, ignore_trailing=cfg["it"])
+                finally:
+                    dns.query.socket_factory = saved
+            elif api == "send":
                 result = dns.query.send_tcp(sock, what, expiration)
             elif api == "recv":
                 result = dns.query.receive_tcp(sock, expiration, ignore_trailing=cfg["it"])
@@ -697,7 +830,15 @@ def run_stream_once(script, flavor):
                 result = dns.query.tcp(q, "10.0.0.1", timeout, PORT, ignore_trailing=cfg["it"], sock=sock)
         else:
             sock = AsyncTcpSock(run, stream)
-            if api == "send":
+            if own:
+                backend = FakeBackend(run, stream)
+                if api == "tls":
+                    result = run_async(dns.asyncquery.tls(q, "10.0.0.1", timeout, 853, ignore_trailing=cfg["it"],
+                                                          backend=backend, ssl_context=FakeSSLContext()))
+                else:
+                    result = run_async(dns.asyncquery.tcp(q, "10.0.0.1", timeout, PORT, ignore_trailing=cfg["it"],
+                                                          backend=backend))
+            elif api == "send":
                 result = run_async(dns.asyncquery.send_tcp(sock, what, expiration))
             elif api == "recv":
                 result = run_async(dns.asyncquery.receive_tcp(sock, expiration, ignore_trailing=cfg["it"]))
@@ -733,6 +874,8 @@ def run_stream_once(script, flavor):
             out.append({"op": "block"})
         elif x[0] == "silence":
             out.append({"op": "silence"})
+        elif x[0] == "connected":
+            out.append({"op": "connected"})
         elif x[0] == "exhausted":
             out.append({"op": "exhausted"})
     out.append({"op": "end", "kind": kind, "exc": excname, "now": CLOCK.ticks(), "ret": ret, "nbytes": nbytes})
